@@ -84,7 +84,7 @@ PROPS["C07"] = {
         {"pkg": "loader", "name": "VerifC07_Cycle3", "quick": {}, "thorough": {}, "reach": ["end", "cyclic", "acyclic", "undefined"],
          "bounds": {"N": 3, "edges": "all 2^9 adjacency matrices incl. self loops + optional dangling edge", "map order": "sorted"}},
         {"pkg": "loader", "name": "VerifC07_Cycle3Orders", "thorough": {"wall": 3000}, "reach": ["end", "cyclic", "acyclic", "undefined"],
-         "bounds": {"N": 3, "map order": "every iteration order (choice points)"}},
+         "bounds": {"N": 3, "map order": "every iteration order of the process table in validateNoCircularDependencies, or of every dependency map in GetDependencies (one family per path)"}},
         {"pkg": "loader", "name": "VerifC07_Cycle4", "thorough": {"wall": 3000}, "reach": ["end", "cyclic", "acyclic", "undefined"],
          "bounds": {"N": 4, "edges": "all 2^16 adjacency matrices + optional dangling edge", "map order": "sorted"}},
         {"pkg": "types", "name": "VerifC07_Order3", "quick": {}, "thorough": {},
@@ -106,7 +106,7 @@ PROPS["C12"] = {
         {"pkg": "app", "name": "VerifC12_RevDeps3", "quick": {}, "thorough": {}, "replay_repeat": 40,
          "bounds": {"N": 3, "edges": "all 2^6 dependency relations", "running": "all subsets", "map order": "every iteration order"}},
         {"pkg": "app", "name": "VerifC12_Project", "quick": {"d": 0}, "thorough": {"d": 1}, "replay_repeat": 8, "reach": ["end", "unrelated.stopped.concurrently"],
-         "bounds": {"shapes": "chain / fan-in / fan-out / diamond", "running at shutdown": "every subset (the others have completed)", "termination latency": "immediate or only when nothing else can happen, per process"}},
+         "bounds": {"shapes": "chain / fan-in / fan-out / diamond / dependent still Pending on process_completed", "running at shutdown": "every subset (the others have completed)", "termination latency": "immediate or only when nothing else can happen, per process"}},
     ],
     "stubs": [],
     "assumptions": [],
@@ -200,7 +200,7 @@ def _lv(pid, text, note, **kw):
 
 _lv("C05", "Real runner on the chain a<-b<-c, all 9 combinations of the three unsatisfiable conditions, four failure modes of a, exit_on_skipped on/off, delay bound d: dependents never launched, Skipped with non-zero exit code, no hang, project code 1.",
     "Stub Commander; go-health scheduler stubbed (no check delivered); os.Stat stub for the bad directory; depth 3.")
-_lv("C15", "mergeSlice(toEnvVarMap,toEnvVarSlice) on base<=2 / override<=1 entries over keys {A,B} with every value over {'=','x'} up to length 2 (3 thorough): result equals last-wins lookup of override-else-base, byte for byte.",
+_lv("C15", "mergeSlice(toEnvVarMap,toEnvVarSlice) on base<=2 / override<=1 entries over keys {A,B} with every value over {'=','x'} up to length 2 (3 thorough): result equals last-wins lookup of override-else-base, byte for byte. Fold: real loadProjectFromFile/loadExtendProject/merge over an extends chain of 1-3 files, each setting log_level and defining process svc or not: the nearest file that sets a value wins, FileNames and fold order agree.",
     "mergo.Map on flat maps bound to its contract under symgo (real mergo natively); mergo's deep merge of ProcessConfig and YAML are outside (reduced scope).")
 _lv("C19", "Every JSON handler of pc_api.go against a recording IProject with symbolic outcomes: right operation once with decoded parameters, 400/207/200 mapping, malformed body or non-numeric path parameter -> 400 without a call, never 5xx.",
     "gin.Context response/body methods stubbed under symgo (real gin test context natively); routing, HTTP, JSON and the client package outside (reduced scope).")
@@ -209,6 +209,9 @@ PROPS["C01"] = {
     "harnesses": [
         {"pkg": "app", "name": "VerifC01_Api", "quick": {"d": 0}, "thorough": {"d": 1}, "native": False, "reach": ["end", "launched.after.ready"],
          "bounds": {"operation": "RestartProcess / StopProcess+StartProcess / ScaleProcess to 2 / UpdateProject adding a dependent", "dependency": "process_healthy that becomes ready later, or process_completed_successfully that failed"}},
+        {"pkg": "app", "name": "VerifC01_Api2", "quick": {"d": 1}, "thorough": {"d": 2}, "native": False, "reach": ["end", "launched.after.ready"],
+         "bounds": {"scenario": "dependent with a never-scheduled (disabled) sibling dependency, both depends_on orders / dependency restarted through the API before the dependent is started / UpdateProject adding a dependency and its dependent at once, every map order",
+                    "schedules": "one preemption (two thorough)"}},
         {"pkg": "app", "name": "VerifC01_Gating", "quick": {"d": 0}, "thorough": {"d": 1}, "replay_repeat": 8,
          "bounds": {"N": 3, "edges": "every subset of {p1->p0,p2->p0,p2->p1} x {completed, completed_successfully, log_ready, started}", "dependency behaviour": "exit 0 / exit 3 / killed by a signal (-1) / runs until stopped",
                     "ready line": "printed or not"}},
@@ -225,14 +228,14 @@ PROPS["C04"] = {
          "bounds": {"exit code": "full int64", "policy": "arbitrary string len<=16", "exit_on_end/exit_on_skipped": "both"}},
         {"pkg": "app", "name": "VerifC04_Project", "quick": {"d": 0}, "thorough": {"d": 1}, "replay_repeat": 8, "reach": ["end", "nonzero.exit"],
          "bounds": {"N": 3, "behaviour": "exit 0 / exit 3+i / runs until stopped, per process", "flags": "none / exit_on_failure / exit_on_end / exit_on_skipped, per process",
-                    "edge": "optional p2 -> p0 completed_successfully"}},
+                    "edge": "optional p2 -> p0 completed_successfully / healthy", "shutdown": "default or ordered"}},
     ],
     "stubs": ["Commander: vCmd (exit code -1 when ended by the signal)"],
     "assumptions": ["handleErrorAndExit/os.Exit mapping of the binary not run"],
 }
-_lv("C04", "Kernel: runner onProcessEnd/onProcessSkipped for every exit code, policy string and flag combination (solver-decided). Project: real runner on 3 processes, per process exit 0 / distinct non-zero / runs until stopped x {none, exit_on_failure, exit_on_end, exit_on_skipped}, optional completed_successfully edge, delay bound d: Run() returns (no hang) with nothing alive, nil unless a trigger occurred, and the code is that of a triggering process, never of a victim of the shutdown.",
+_lv("C04", "Kernel: runner onProcessEnd/onProcessSkipped for every exit code, policy string and flag combination (solver-decided). Project: real runner on 3 processes, per process exit 0 / distinct non-zero / runs until stopped x {none, exit_on_failure, exit_on_end, exit_on_skipped}, optional completed_successfully edge, delay bound d: Run() returns (no hang) with nothing alive, nil unless a trigger occurred, and the code is that of a triggering process, never of a victim of the shutdown; the shutdown a trigger starts is the default or the ordered one.",
     "Stub Commander (victims exit with -1); N=3; preemption at labelled yields/blocking ops; the binary's os.Exit mapping is outside.")
-_lv("C01", "Real runner on 3 processes, every subset of the acyclic edges x the five condition types, dependency behaviours (exit 0/3, runs on, ready line printed or not, one readiness check success/failure delivered at any instant), delay bound d; ground truth (exited, exit 0, probe success seen, line served, released from own dependencies) kept by the stubs and evaluated at every launch.",
+_lv("C01", "Real runner on 3 processes, every subset of the acyclic edges x the five condition types, dependency behaviours (exit 0/3, runs on, ready line printed or not, one readiness check success/failure delivered at any instant), delay bound d; ground truth (exited, exit 0, probe success seen, line served, released from own dependencies) kept by the stubs and evaluated at every launch. Api: a gated process restarted / stopped+started / scaled to 2 / added by UpdateProject while its dependency is not ready (or has failed) is launched only after the dependency became ready, never when it failed. Api2: a never-scheduled sibling dependency does not end the wait for the other dependencies (both depends_on orders); a dependent started after its dependency was restarted waits for the new instance; UpdateProject adding a dependency and its dependent in one request (every map order, one preemption) gates the dependent.",
     "Stub Commander, scripted stdout, go-health scheduler harness-driven (natively the real exec probe 'true'/'false'); un-replicated dependencies; N=3.")
 
 PROPS["C08"] = {
@@ -268,12 +271,16 @@ PROPS["C11"] = {
     "harnesses": [
         {"pkg": "app", "name": "VerifC11_Lines", "quick": {}, "thorough": {},
          "bounds": {"stream": "<=3 complete lines + final fragment, each every byte string over {a,b,space} of length <=2 (empty lines, missing final newline included)"}},
+        {"pkg": "pclog", "name": "VerifC11_LoggerDrain", "quick": {"d": 1}, "thorough": {"d": 3}, "replay_repeat": 6,
+         "bounds": {"lines": "1..3 handed to the file logger (Info/Error alternating), then Close", "logger config": "default / flush_each_line / no_metadata / add_timestamp",
+                    "collector progress": "every interleaving of the collector with the producer at the per-line scheduling points within the delay bound"}},
     ],
-    "stubs": ["bufio.Reader.ReadString by its documented contract over the scripted stream (natively the real bufio over the same bytes)", "logger: NilLogger (the log file path is outside)"],
-    "assumptions": ["real pipes, kernel buffering, zerolog formatting, file contents and rotation are outside the claim (reduced scope)"],
+    "stubs": ["bufio.Reader.ReadString by its documented contract over the scripted stream (natively the real bufio over the same bytes)", "logger of the Lines harness: NilLogger",
+              "zerolog: one Write of message+newline per Msg to the writer given to zerolog.New (natively the real zerolog)", "PCLog.getWriter: an in-memory sink (natively a real file)"],
+    "assumptions": ["real pipes, kernel buffering, zerolog formatting and rotation are outside the claim (reduced scope)"],
 }
-_lv("C11", "handleOutput/handleInfo/ProcessLogBuffer.Write over a scripted stream of <=3 complete lines plus a final fragment with symbolic contents: the in-memory log holds exactly the delivered lines, once, in order, newline stripped, an unterminated last line included; end of stream signalled once.",
-    "bufio.ReadString modelled by its contract under symgo (real bufio natively); very long lines and the log-file path (zerolog, files) are outside - reduced scope.")
+_lv("C11", "handleOutput/handleInfo/ProcessLogBuffer.Write over a scripted stream of <=3 complete lines plus a final fragment with symbolic contents: the in-memory log holds exactly the delivered lines, once, in order, newline stripped, an unterminated last line included; end of stream signalled once. Log file: real PCLog Open/Info/Error/Close/runCollector + the standard library's bufio.Writer, 1-3 lines, four logger configurations, every collector interleaving within the delay bound: every line handed over before Close is in the file exactly once and in order after Close, and nothing is written after the file was closed.",
+    "bufio.ReadString and zerolog modelled by their contracts under symgo (real ones natively); file opening replaced by a sink under symgo; very long lines and rotation are outside - reduced scope.")
 
 PROPS["C16"] = {
     "harnesses": [
@@ -290,10 +297,10 @@ _lv("C16", "The post-merge loader pipeline (setDefaultShell, assignDefaultProces
 _lv("C02", 'Decision kernel isRestartable/getBackoff for every policy string, exit code, restart count, max_restarts>=0, stop flag (solver-decided, full ranges). Real restart loop of one process (4 scripted exits with run time 0/3 s, policy x max x backoff, one stop request at any labelled instant, delay bound d, virtual time): every relaunch justified by policy and exit code, within max_restarts, not before the back-off, never after a completed stop; restart count = relaunches. Project shutdown kept busy by a slow process: no relaunch of a restart-always worker that exits meanwhile.',
     'Stub Commander through the verif seam; virtual clock; preemption at labelled yields/blocking ops; max_restarts>=0; seconds within 2^31.')
 
-_lv("C03", 'Real runner on 2-process projects: ShutDownProject() arrives at every labelled life-cycle point of either process (explicit choice) with delay bound d, and while a slow-dying process is already being stopped: at return nothing launched is alive and nothing is reported running; afterwards nothing is launched and Run() returns.',
+_lv("C03", 'Real runner on 2-process projects: ShutDownProject() arrives at every labelled life-cycle point of either process (explicit choice) with delay bound d, and while a slow-dying process is already being stopped: at return nothing launched is alive and nothing is reported running; afterwards nothing is launched and Run() returns. Daemon: a launched daemon whose shutdown command succeeds / fails / times out is reported stopped and Run() returns.',
     'Stub Commander; N=2; preemption at labelled yields/blocking ops only; OS signals to the binary outside. Known finding: shutdown while Run() still registers processes.')
 
-_lv("C06", 'Decision kernel (*CmdWrapper).Stop/SetCmdArgs for every signal value, parent_only, pid/pgid, Getpgid failure. Escalation: real stopProcess/forceKillOnTimeout/doConfiguredStop/onProcessEnd on one process with virtual time for signal x timeout x parent_only x shutdown command (none/ok/fails/times out) x child ignores SIGTERM or not: configured signal first, SIGKILL only after the timeout with the child still alive or after a failed command, never otherwise; the command gets environment and working directory.',
+_lv("C06", 'Decision kernel (*CmdWrapper).Stop/SetCmdArgs for every signal value, parent_only, pid/pgid, Getpgid failure. Escalation: real stopProcess/forceKillOnTimeout/doConfiguredStop/onProcessEnd on one process with virtual time for signal x timeout x parent_only x shutdown command (none/ok/fails/times out) x child ignores SIGTERM or not: configured signal first, SIGKILL only after the timeout with the child still alive or after a failed command, never otherwise; the command gets environment and working directory. ProjectTimeout: under a project shutdown the timeout of each process runs from its own signal, whatever the death latency of the others.',
     'syscall.Getpgid/Kill, os.Process.Signal, the shutdown command and the Commander are stubs; kernel semantics (process groups, descendants, signal delivery to the binary) are outside; neither harness is replayed natively.', technique="bounded symbolic execution of the real SSA with z3 (engine-only: no native replay for these harnesses)")
 
 _lv("C07", 'validateNoCircularDependencies + validateDependencyIsEnabled against a Warshall reference for all graphs over 3 names (+dangling edge; 4 names and all map orders thorough); GetDependenciesOrderNames for all DAGs x disabled/foreground markings x map orders, also with a replicated dependency; selection (NewProjectRunner with requested processes / no-deps) for all DAGs x requested subsets x foreground markings x 1-2 replicas: enabled set = requested + closure, run order = exactly the startable ones.',
@@ -302,7 +309,7 @@ _lv("C07", 'validateNoCircularDependencies + validateDependencyIsEnabled against
 _lv("C10", "ValidateAndSetDefaults for full-range ints and HTTP target strings; healthCheckCompleted for thresholds [-1,4] over every outcome sequence of 6 checks and every stop instant; real Prober.Start/Stop against go-health's Start/Stop contract for stop before/after the initial delay; process coupling: every outcome sequence of 4 readiness checks x restart policy (Ready/Not Ready, one stop at the threshold, relaunch by policy, readiness forgotten); daemon + liveness: fatal result while launching or after launch, handled by the restart policy.",
     'go-health scheduler replaced by its callback and Start/Stop contract (Lifecycle replays natively against the real one); HTTP/exec checkers not run; Coupling and Daemon are engine-only.')
 
-_lv("C12", 'runningProcessesReverseDependencies for every dependency relation over 3 names x running subset x map order; real ordered ShutDownProject on chain / fan-in / fan-out / diamond with every subset already completed and every termination latency mix: no stop signal while a dependent that was running at shutdown is alive, shutdown completes, unrelated processes are stopped concurrently (witness).',
+_lv("C12", 'runningProcessesReverseDependencies for every dependency relation over 3 names x running subset x map order; real ordered ShutDownProject on chain / fan-in / fan-out / diamond with every subset already completed and every termination latency mix: no stop signal while a dependent that was running at shutdown is alive, shutdown completes, unrelated processes are stopped concurrently (witness); a dependent still Pending on process_completed when the shutdown begins does not block it.',
     'Stub Commander; N<=4.')
 
 _lv("C13", 'CalculateReplicaName for every count 1..128 (1..1100 thorough) and symbolic i<j<n; real ScaleProcess from 1-3 replicas (each running or already completed) to {-1,0,1,2,3,9,10,11} (two successive requests thorough): listed replicas, their state/info/log and rendered configuration equal a fresh load with replicas: n; survivors not restarted, removed terminated, added launched once, bystander untouched, n<1/unknown name rejected.',
@@ -311,7 +318,7 @@ _lv("C13", 'CalculateReplicaName for every count 1..128 (1..1100 thorough) and s
 _lv("C14", 'ProcessConfig.Compare on two configurations with symbolic launch-relevant settings (executable/args derived by the real AssignProcessExecutableAndArgs): equal implies agreement on every launch-relevant field. Real UpdateProject: process a changed in one of 11 settings or unchanged, b kept or removed, c added or not, k untouched: configured set, status map, instances kept / relaunched once with the new configuration / terminated / launched.',
     'reflect.DeepEqual modelled structurally; go-health stubbed; Update is engine-only.')
 
-_lv("C17", "getProcessEnvironment for symbolic inherited/global/per-process layers under exec's last-duplicate-wins; loadProjectFromFile with os.ExpandEnv interpreted from the standard library's SSA on 1-3 tokens from {literal, $$, $VX, ${VX}, ${VY}} with expansion on/off: expanded text = concatenation of the token images.",
+_lv("C17", "getProcessEnvironment for symbolic inherited/global/per-process layers under exec's last-duplicate-wins; loadProjectFromFile with os.ExpandEnv interpreted from the standard library's SSA on 1-3 tokens from {literal, $$, $VX, ${VX}, ${VY}} with expansion on/off: expanded text = concatenation of the token images. Project: runner-level launch environment with env_cmds results appended to the project environment (spare capacity): each process sees its own per-process variables only.",
     'os.Environ/ReadFile/Getenv/godotenv/yaml.Unmarshal bound to stubs under symgo (natively the real file, environment and YAML decoder); .env parsing outside.')
 
 _lv("C18", 'GetLogRange for every length 0..1100 and full-int64 offset/limit on an abstract buffer; one Write from boundary states around the trimming point for symbolic size; subscription with any tail length after any number of 4 writes, unsubscribe at any point, concurrent writer (d=3): tail then every later line once, in order; websocket follower that never reads vs 300 writes.',
